@@ -397,6 +397,7 @@ def flatten(spec):
 
 def alt_of(spec, alt):
     if alt == 'flat': return flatten(spec)
+    if alt == 'same': return spec
     if alt == 'uncached':
         def strip(sp):
             if sp['kind'] == 'cached': return strip(sp['inner'])
